@@ -10,6 +10,8 @@
 -/
 import Gama.Lemmas.Cache
 import Gama.Lemmas.EnvState
+import Gama.Lemmas.EnvHist
+import Gama.Lemmas.EnvDenote
 namespace Gama.Props.C04
 open Gama Gama.MTF Gama.C04
 
@@ -97,6 +99,105 @@ example :
     let ops := [Op.qxx 1 5, .q0xx 1 4, .qxx 2 3, .qxx 4 4, .minx [1, 2], .qxx 1 5, .unknowns,
                 .reset, .q0xx 5 1, .qbb 1 2, .minxAll]
     (step inp (run inp (init none) ops) (.qxx 1 5)).2
-      = .qxxSing (.trow 1 [1, 2, 3, 4, 5]) (.trow 5 [1, 2, 3, 4, 5]) := by decide
+      = .qxxSing (.trow 0 1 [1, 2, 3, 4, 5]) (.trow 0 5 [1, 2, 3, 4, 5]) := by decide
+
+/-! ### `AdjEnvelope` across resets to OTHER inputs (round 3)
+
+The current input is part of the state (`HState`), `resetNew inp'` is `reset(data')` with any other
+input (same or different number of unknowns, regular or singular).  Everything that physically
+survives `reset` is state of the model: the key table `indbuf`, the three vectors `qxxbuf`
+(`content`, each tagged with the identity of the data set it was computed from), the work vector
+`tmpres` (`tmpresDim`), the stored list `min_x_list`. -/
+
+/-- **History freedom across inputs.**  After ANY history — queries, `min_x…`, `reset` with the same
+    or with other inputs — every query is answered as a brand-new object given the CURRENT input and
+    the stored regularisation list answers it.  In particular no vector cached from an earlier input is
+    ever read: `reset` erases the key table (the proof uses exactly that step, `inv_reset`). -/
+theorem env_history_free_across_inputs (inp0 : EnvInput) (hp : inp0.Pos) (m0 : Option (List Nat))
+    (ops : List HOp) (hops : ∀ o ∈ ops, o.Valid) (op : Op) (hop : op.Valid) :
+    let h := hrun (hinit inp0 m0) ops
+    (hstep h (.q op)).2 = fresh h.inp h.s.minx op :=
+  hstep_eq_fresh (hrun_inv (hinv_init hp m0) hops) op hop
+
+/-- the invariant along such histories: the single-input invariant for the current input (every live
+    key's vector was computed from the CURRENT data set; `tmpres` has the current dimension whenever
+    `init_q_bb` is clear — its content is zeroed and refilled before every use) -/
+theorem env_invariant_across_inputs (inp0 : EnvInput) (hp : inp0.Pos) (m0 : Option (List Nat))
+    (ops : List HOp) (hops : ∀ o ∈ ops, o.Valid) :
+    let h := hrun (hinit inp0 m0) ops
+    h.inp.Pos ∧ Inv h.inp h.s :=
+  hrun_inv (hinv_init hp m0) hops
+
+/-- the same-input theorem is the special case without `resetNew` -/
+theorem envelope_history_free_is_corollary (inp : EnvInput) (hp : inp.Pos) (m0 : Option (List Nat))
+    (ops : List Op) (hops : ∀ o ∈ ops, o.Valid) (op : Op) (hop : op.Valid) :
+    (step inp (run inp (init m0) ops) op).2 = fresh inp (run inp (init m0) ops).minx op := by
+  have h := env_history_free_across_inputs inp hp m0 (ops.map .q)
+    (by intro o ho; obtain ⟨o', ho', rfl⟩ := List.mem_map.mp ho; exact hops o' ho') op hop
+  simp only [hinit, hrun_q] at h
+  exact h
+
+/-- **Numeric meaning (`answer_denotes`).**  For a numeric world `W` (problems by identity, the
+    ordering's inverse permutation) that describes the current input, the value DENOTED by the symbolic
+    answer after any history — evaluated by the numeric envelope model on the data set each provenance
+    term names — is the value the numeric model gives a fresh object on the CURRENT problem with the
+    current list.  So history freedom is a statement about numbers: a term naming another data set
+    would denote that other problem's number (see the witness below). -/
+theorem env_answer_denotes {K : Type} [Scalar K] (W : World K) (inp0 : EnvInput) (hp : inp0.Pos)
+    (m0 : Option (List Nat)) (ops : List HOp) (hops : ∀ o ∈ ops, o.Valid) (op : Op) (hop : op.Valid)
+    (m : Option (List Nat)) :
+    let h := hrun (hinit inp0 m0) ops
+    W.Describes h.inp →
+    denote W h.inp.id m (hstep h (.q op)).2
+      = directC h.inp (W.prob h.inp.id) m (eff h.inp h.s.minx) op :=
+  fun hd => hstep_denotes W (hrun_inv (hinv_init hp m0) hops) hd m op hop
+
+/-- non-vacuity: two singular inputs of the same size and one larger regular one; caches are filled
+    under each; the final `q_xx` names only the current data set (3) -/
+example :
+    let a : EnvInput := { n := 4, nullity := 1, invp := fun i => i, inEnv := fun i j => (max i j) - (min i j) ≤ 1,
+                          resolves := fun l => l ≠ [], qbbIn := fun i j => i == j, id := 1 }
+    let b : EnvInput := { a with id := 2 }
+    let c : EnvInput := { a with n := 6, nullity := 0, id := 3 }
+    let ops := [HOp.q (.qxx 1 4), .q (.q0xx 1 3), .resetNew b, .q (.qxx 1 4), .q (.qbb 1 2), .resetNew c, .q (.qbb 2 1)]
+    (∀ o ∈ ops, o.Valid)
+    ∧ (hstep (hrun (hinit a none) ops) (.q (.qxx 1 4))).2 = .q0col (.invcol 3 4) 1
+    ∧ (hstep (hrun (hinit a none) [.q (.qxx 1 4), .resetNew b]) (.q (.qxx 1 4))).2
+        = .qxxSing (.trow 2 1 [1, 2, 3, 4]) (.trow 2 4 [1, 2, 3, 4]) := by
+  refine ⟨?_, by decide, by decide⟩
+  intro o ho
+  simp only [List.mem_cons, List.mem_nil_iff, or_false] at ho
+  rcases ho with rfl | rfl | rfl | rfl | rfl | rfl | rfl <;>
+    first | exact ⟨by decide, by decide⟩ | trivial | (intro i hi; exact hi)
+
+/-- **The erase step is needed (witness).**  The variant of `reset` that keeps key table and buffers
+    when the number of unknowns is unchanged (`resetKeep`; seeded change C03-seed2) answers `q_xx(1,4)`
+    after `reset(other data of the same size)` from the vectors of the OLD data set (identity 1) —
+    not what a fresh object given data set 2 computes; the code's `reset` does. -/
+example :
+    let a : EnvInput := { n := 4, nullity := 1, invp := fun i => i, inEnv := fun i j => (max i j) - (min i j) ≤ 1,
+                          resolves := fun l => l ≠ [], qbbIn := fun i j => i == j, id := 1 }
+    let b : EnvInput := { a with id := 2 }
+    let ops := [HOp.q (.qxx 1 4), .resetNew b]
+    (hstepWith resetKeep (hrunWith resetKeep (hinit a none) ops) (.q (.qxx 1 4))).2
+        = .qxxSing (.trow 1 1 [1, 2, 3, 4]) (.trow 1 4 [1, 2, 3, 4])
+    ∧ fresh b (hrunWith resetKeep (hinit a none) ops).s.minx (.qxx 1 4)
+        = .qxxSing (.trow 2 1 [1, 2, 3, 4]) (.trow 2 4 [1, 2, 3, 4])
+    ∧ (hstep (hrun (hinit a none) ops) (.q (.qxx 1 4))).2
+        = .qxxSing (.trow 2 1 [1, 2, 3, 4]) (.trow 2 4 [1, 2, 3, 4]) := by decide
+
+/-- **Finding C04-env-allist-survives-reset (witness).**  The configuration "all parameters"
+    (`min_x_list == nullptr`) is replaced inside `solve_x()` by an explicit list 1..n of the THEN current
+    size, and `reset` keeps it: after `reset(larger system)` the object regularises over the first 3
+    unknowns only, a new object (list `none`) over all 5.  (History freedom above is therefore relative to
+    the STORED list.)  Replayed on the real code: corpus/C04/env-allist-survives-reset-{grow,shrink}.ops. -/
+theorem env_materialised_list_survives_reset :
+    let a : EnvInput := { n := 3, nullity := 1, invp := fun i => i, inEnv := fun _ _ => true,
+                          resolves := fun l => l ≠ [], qbbIn := fun _ _ => true, id := 1 }
+    let b : EnvInput := { a with n := 5, id := 2 }
+    let h := hrun (hinit a none) [.q .unknowns, .resetNew b]
+    h.s.minx = some [1, 2, 3]
+    ∧ (hstep h (.q .unknowns)).2 = .x (some [1, 2, 3])
+    ∧ fresh b none .unknowns = .x (some [1, 2, 3, 4, 5]) := by decide
 
 end Gama.Props.C04
